@@ -8,7 +8,7 @@
   * Replay as recorded: proved below for every program and every source (PRNG or buffer).
   * Replay with rejected attempts removed (pruned): `PruneStable`, see RapidProofs/PruneStable.lean.
 -/
-import RapidProofs.Shrink
+import RapidProofs.PruneProp
 
 namespace Rapid.C04
 
@@ -24,6 +24,27 @@ theorem run_replay_as_recorded (p : Prog) (src : Src) (ts : TS) (xs : List UInt6
     (h : (p.run src ts).overran = false) :
     p.run (.buf ((p.run src ts).used ++ xs)) ts = { p.run src ts with src := .buf xs } :=
   run_replay p src ts xs h
+
+/-- **replay with the rejected attempts removed** (L-PS): for every generator expression without
+    `Custom` — any nesting of integers, booleans, SampledFrom/OneOf, Filter, Map, slices, distinct
+    slices, maps, pointers, permutations, Deferred, runes, strings — every source, every
+    parameter: a run that ends in a value replays from its PRUNED recording (followed by
+    anything) with the same value, the same `*T`, consuming exactly the pruned words -/
+theorem generator_replays_pruned (e : Env) (hrt : RTPos e) (g : Gen) (hg : g.NoCustom) : PS (g.value e) :=
+  (gen_value_good e hrt g hg).ps
+
+/-- …and so does every property function built from such draws and the `*T` API -/
+theorem property_replays_pruned (e : Env) (hrt : RTPos e) (p : Prog) (hp : PropProg e p) : PS p :=
+  propProg_ps e hrt hp
+
+/-- the loops behind it: `repeat` with rejections, minCount/maxCount and forced stop -/
+theorem repeat_loop_replays_pruned (c : RCfg) (step : Val → Prog) (hthr : 0 < c.thr ∨ NoRej step)
+    (hstep : ∀ acc, PS (step acc)) (hpure : ∀ acc, TsPure (step acc)) (hshape : StepShape step)
+    (k : Val → Prog) (hk : ∀ acc, PS (k acc)) (fuel : Nat) (acc : Val) :
+    PS (repeatLoop c step k fuel {} acc) := by
+  intro src ts xs hg ho
+  exact ps_repeatLoop c step hthr hstep hpure hshape k hk fuel fuel (Nat.le_refl _) {} {} acc ⟨rfl, rfl⟩
+    (fun h => by cases h) (fun _ => rfl) src ts xs hg ho
 
 /-- a recording made from the PRNG replays from a buffer (the PRNG never overruns) -/
 theorem words_are_masked (s s' : Src) (n : Nat) (u : UInt64) (h : s.next n = some (u, s')) : mask n u = u :=
